@@ -12,7 +12,7 @@ import sys
 
 PROPERTY = "C32"
 TIERS = {
-    "quick": dict(seeds=24000, soft_s=150, hard_s=420, per_seed_s=60, init_s=300),
+    "quick": dict(seeds=96000, soft_s=150, hard_s=420, per_seed_s=60, init_s=300),
     "thorough": dict(seeds=2_400_000, soft_s=1500, hard_s=2400, per_seed_s=60, init_s=300),
 }
 RULE = ("one evaluation = one call of accelforge.util.parallel.parallel on a generated job "
